@@ -16,7 +16,23 @@ type closureInfo struct {
 	binds []Val
 }
 
+var recTypeNames = map[string]bool{}
+
+// contentTag marks hypotheses that only describe array contents (append/copy
+// axioms); they are dropped from frame obligations, which only concern
+// object identities.
+const contentTag = ";content;"
+
 func sigKey(sig *types.Signature, norm func(*types.Package) string) string {
+	k := sigKey0(sig, norm)
+	for n := range recTypeNames {
+		k = strings.ReplaceAll(k, "GEN."+n+")", "GEN.REC)")
+		k = strings.ReplaceAll(k, "GEN."+n+",", "GEN.REC,")
+	}
+	return k
+}
+
+func sigKey0(sig *types.Signature, norm func(*types.Package) string) string {
 	var ps, rs []string
 	for i := 0; i < sig.Params().Len(); i++ {
 		ps = append(ps, types.TypeString(sig.Params().At(i).Type(), norm))
@@ -74,7 +90,12 @@ func (fv *FV) call(st *State, instr ssa.Instruction, c *ssa.CallCommon, res ssa.
 			fv.unsupportedf("no contract for interface method %s", key)
 		}
 		fv.safety(st, "nil-iface-call", at, fmt.Sprintf("(not (= (ityp %s) 0))", recv.T))
-		target, rtyp, external := fv.resolveDyn(st, recv, c.Method)
+		var target *ssa.Function
+		var rtyp types.Type
+		external := false
+		if !fv.eng.ifaceInScope(c.Method) {
+			target, rtyp, external = fv.resolveDyn(st, recv, c.Method)
+		}
 		if target != nil {
 			rv := Val{T: fmt.Sprintf("(ival %s)", recv.T), S: "Int", Typ: rtyp}
 			if _, isPtr := rtyp.Underlying().(*types.Pointer); !isPtr {
@@ -84,10 +105,12 @@ func (fv *FV) call(st *State, instr ssa.Instruction, c *ssa.CallCommon, res ssa.
 			fv.callFunction(st, target, append([]Val{rv}, args...), 0, at, done)
 			return
 		}
-		if !external {
-			// dynamic type unknown: the callee may be any implementor; nothing about the heap survives
+		if !external && !fv.eng.ifaceInScope(c.Method) {
+			// dynamic type unknown and the interface is declared outside the library: the callee may be
+			// any implementor; nothing about the heap survives
 			fv.touchEverything(st, "iface:"+shortKey(key))
 			fv.havocAllHeaps(st)
+			fv.assumptions["interface call "+key+" with unknown dynamic type in "+fv.fc.Key+": heap havocked, weak interface contract assumed for every implementor"] = true
 		}
 		sig := c.Method.Type().(*types.Signature)
 		names := []string{"self"}
@@ -98,7 +121,11 @@ func (fv *FV) call(st *State, instr ssa.Instruction, c *ssa.CallCommon, res ssa.
 			}
 			names = append(names, n)
 		}
-		fv.trusted["iface "+key] = true
+		if fv.eng.ifaceInScope(c.Method) {
+			fv.reached["iface:"+key] = true
+		} else {
+			fv.trusted["iface "+key] = true
+		}
 		fv.applyContract(st, fc, key, names, append([]Val{recv}, args...), sig.Results(), at, done)
 		return
 	}
@@ -116,17 +143,18 @@ func (fv *FV) call(st *State, instr ssa.Instruction, c *ssa.CallCommon, res ssa.
 		}
 		sig := c.Value.Type().Underlying().(*types.Signature)
 		key := sigKey(sig, fv.eng.normQual)
+		_ = key
 		fc := fv.u.db.FnTypes[key]
 		if fc == nil {
 			fv.unsupportedf("call of unknown function value of type %q without functype contract", key)
 		}
-		var names []string
+		names := []string{"self"}
 		for i := 0; i < sig.Params().Len(); i++ {
 			names = append(names, fmt.Sprintf("arg%d", i))
 		}
-		fv.trusted["functype "+key] = true
+		fv.reached["functype:"+key] = true
 		fv.safety(st, "nil-func-call", at, fmt.Sprintf("(not (= %s 0))", v.T))
-		fv.applyContract(st, fc, key, names, args, sig.Results(), at, done)
+		fv.applyContract(st, fc, key, names, append([]Val{v}, args...), sig.Results(), at, done)
 		return
 	}
 	if mc, ok := c.Value.(*ssa.MakeClosure); ok {
@@ -162,6 +190,8 @@ func (fv *FV) callFunction(st *State, callee *ssa.Function, args []Val, nbind in
 		names = append(names, paramNames(callee)...)
 		if fc.Trusted {
 			fv.trusted[fc.Key] = true
+		} else {
+			fv.reached["func:"+fc.Key] = true
 		}
 		fv.applyContract(st, fc, fc.Key, names, args, callee.Signature.Results(), at, done)
 		return
@@ -236,10 +266,10 @@ func (fv *FV) applyContract(st *State, fc *FuncContract, key string, names []str
 		if r.Free {
 			continue
 		}
-		g := fv.evalBool(r.E, env)
+		g := fv.evalGoal(st, r.E, env, 0)
 		tags := r.Tags
 		fv.addObl(st, "pre", fmt.Sprintf("pre(%s):%s@%s:%s", shortKey(key), r.Name, st.fr.fn.Name(), at), g, r.Src, tags)
-		st.assume(g)
+		fv.assumeSpec(st, r.E, env)
 	}
 	old := st.clone()
 	env.old = old
@@ -287,9 +317,15 @@ func (fv *FV) applyContract(st *State, fc *FuncContract, key string, names []str
 					panic(r)
 				}
 			}()
-			st.assume(fv.evalBool(e.E, env))
+			fv.assumeSpec(st, e.E, env)
 		}()
 	}
+	for _, pg := range st.pendingGhost {
+		fv.nTouch++
+		cur := st.ghost[pg[0]]
+		fv.addObl(st, "frame", fmt.Sprintf("frame:ghost-%s:callee#%d@%s", pg[0], fv.nTouch, st.fr.fn.Name()), fmt.Sprintf("(= %s %s)", cur.T, pg[1]), "ghost global "+pg[0]+" is not in the modifies clause: the callee must leave it unchanged here", nil)
+	}
+	st.pendingGhost = nil
 	done(st, rs)
 }
 
@@ -362,6 +398,10 @@ func (fv *FV) applyModifies(st *State, mods []*Expr, env *Env) {
 
 func (fv *FV) applyModify(st *State, m *Expr, env *Env) {
 	switch {
+	case m.Op == "id" && m.Name == "allheaps":
+		fv.touchAllHeaps(st, "callee")
+		fv.havocAllHeaps(st)
+		return
 	case m.Op == "id" && m.Name == "everything":
 		fv.touchEverything(st, "modifies-everything")
 		fv.havocAllHeaps(st)
@@ -369,7 +409,11 @@ func (fv *FV) applyModify(st *State, m *Expr, env *Env) {
 		return
 	case m.Op == "id" && fv.u.db.GGlobal[m.Name] != "":
 		s := fv.u.db.GGlobal[m.Name]
-		fv.touchGhost(st, m.Name, "callee")
+		if fs := fv.frame; fs != nil && !fs.everything && !fs.ghost[m.Name] {
+			// not in the caller's frame: the callee's postcondition must imply it is unchanged
+			oldv, _ := fv.lookupId(m.Name, env)
+			st.pendingGhost = append(st.pendingGhost, [2]string{m.Name, oldv.T})
+		}
 		st.ghost[m.Name] = Val{T: fv.fresh("gg_"+m.Name, s), S: s}
 		return
 	case m.Op == "call" && m.Name == "HA":
@@ -540,7 +584,7 @@ func (fv *FV) builtin(st *State, b *ssa.Builtin, c *ssa.CallCommon, at string) V
 		src := fv.define(st, "csrc", hs, fmt.Sprintf("(select %s (sref %s))", h, s.T))
 		dst := fv.define(st, "cdst", hs, fmt.Sprintf("(select %s (sref %s))", h, d.T))
 		na := fv.fresh("copied", hs)
-		st.assume(fmt.Sprintf("(forall ((k Int)) (! (= (select %s k) (ite (and (<= (soff %s) k) (< k (+ (soff %s) %s))) (select %s (+ (- k (soff %s)) (soff %s))) (select %s k))) :pattern ((select %s k))))",
+		st.assume(contentTag + fmt.Sprintf("(forall ((k Int)) (! (= (select %s k) (ite (and (<= (soff %s) k) (< k (+ (soff %s) %s))) (select %s (+ (- k (soff %s)) (soff %s))) (select %s k))) :pattern ((select %s k))))",
 			na, d.T, d.T, n, src, d.T, s.T, dst, na))
 		fv.touchUnless(st, hs, fmt.Sprintf("(sref %s)", d.T), "copy", fmt.Sprintf("(= %s 0)", n))
 		fv.setHeap(st, hs, fmt.Sprintf("(store %s (sref %s) %s)", h, d.T, na))
@@ -573,7 +617,7 @@ func (fv *FV) appendSlices(st *State, s, t Val, typ types.Type, targ ssa.Value) 
 	oldT := fv.define(st, "aoldt", hs, fmt.Sprintf("(select %s (sref %s))", h, t.T))
 	na := fv.fresh("appended", hs)
 	// contents: old prefix, then the appended elements; in place: everything else unchanged
-	st.assume(fmt.Sprintf("(forall ((k Int)) (! (=> (and (<= %s k) (< k (+ %s (slen %s)))) (= (select %s k) (select %s (+ (- k %s) (soff %s))))) :pattern ((select %s k))))",
+	st.assume(contentTag + fmt.Sprintf("(forall ((k Int)) (! (=> (and (<= %s k) (< k (+ %s (slen %s)))) (= (select %s k) (select %s (+ (- k %s) (soff %s))))) :pattern ((select %s k))))",
 		off, off, s.T, na, oldS, off, s.T, na))
 	// small constant count: unrolled (quantifier-free); otherwise quantified
 	cnt := -1
@@ -586,13 +630,13 @@ func (fv *FV) appendSlices(st *State, s, t Val, typ types.Type, targ ssa.Value) 
 	}
 	if cnt >= 0 {
 		for j := 0; j < cnt; j++ {
-			st.assume(fmt.Sprintf("(= (select %s (+ %s (slen %s) %d)) (select %s (+ (soff %s) %d)))", na, off, s.T, j, oldT, t.T, j))
+			st.assume(contentTag + fmt.Sprintf("(= (select %s (+ %s (slen %s) %d)) (select %s (+ (soff %s) %d)))", na, off, s.T, j, oldT, t.T, j))
 		}
 	} else {
-		st.assume(fmt.Sprintf("(forall ((k Int)) (! (=> (and (<= (+ %s (slen %s)) k) (< k (+ %s %s))) (= (select %s k) (select %s (+ (- k (+ %s (slen %s))) (soff %s))))) :pattern ((select %s k))))",
+		st.assume(contentTag + fmt.Sprintf("(forall ((k Int)) (! (=> (and (<= (+ %s (slen %s)) k) (< k (+ %s %s))) (= (select %s k) (select %s (+ (- k (+ %s (slen %s))) (soff %s))))) :pattern ((select %s k))))",
 			off, s.T, off, newlen, na, oldT, off, s.T, t.T, na))
 	}
-	st.assume(fmt.Sprintf("(=> %s (forall ((k Int)) (! (=> (or (< k (+ %s (slen %s))) (>= k (+ %s %s))) (= (select %s k) (select %s k))) :pattern ((select %s k)))))",
+	st.assume(contentTag + fmt.Sprintf("(=> %s (forall ((k Int)) (! (=> (or (< k (+ %s (slen %s))) (>= k (+ %s %s))) (= (select %s k) (select %s k))) :pattern ((select %s k)))))",
 		fits, off, s.T, off, newlen, na, oldS, na))
 	fv.touchUnless(st, hs, ref, "append", fmt.Sprintf("(= %s 0)", n))
 	fv.setHeap(st, hs, fmt.Sprintf("(store %s %s %s)", h, ref, na))
